@@ -288,6 +288,11 @@ where
             props: irs
                 .into_iter()
                 .map(|(prop_name, mut ir)| {
+                    // Vue never calls the default of a `Function` prop: no factory around it
+                    let is_function_prop = matches!(
+                        ir.types.first(),
+                        Some(Some(ty)) if ir.types.len() == 1 && ty == "Function"
+                    );
                     let mut props = vec![
                         PropOrSpread::Prop(Box::new(Prop::KeyValue(KeyValueProp {
                             key: PropName::Ident(quote_ident!("type")),
@@ -342,9 +347,21 @@ where
                                 false
                             }
                     }) {
+                        let default = match default {
+                            Expr::Arrow(ArrowExpr {
+                                span: DUMMY_SP,
+                                params,
+                                body,
+                                ..
+                            }) if is_function_prop && params.is_empty() => match &**body {
+                                BlockStmtOrExpr::Expr(value) => (**value).clone(),
+                                BlockStmtOrExpr::BlockStmt(..) => default.clone(),
+                            },
+                            _ => default.clone(),
+                        };
                         props.push(PropOrSpread::Prop(Box::new(Prop::KeyValue(KeyValueProp {
                             key: PropName::Ident(quote_ident!("default")),
-                            value: Box::new(default.clone()),
+                            value: Box::new(default),
                         }))));
                     }
                     PropOrSpread::Prop(Box::new(Prop::KeyValue(KeyValueProp {
